@@ -55,7 +55,7 @@ CHECKS.update({
          "Thousands of clock/increment/movetime combinations incl. the whole underflow band and boundary values, both sides to move, release and debug-assertions binaries, every fourth case with another standard `go` parameter (ponder, searchmoves, movestogo, nodes, mate) around the limits, every tenth on a nine-queens-a-side position whose first iterations outlast the budget; the `info time` value must be a finite non-negative integer not above the time available; short budgets are also waited for.",
          "`go` with clocks but no increments computes no budget (outside the quantifier)."),
  "C14": ("fault_enumeration", "trace checker: sequential session model replayed over the stdin/stdout history of the real binary; delays injected at five named schedule points (cfg hooks); lost stops decided on hook event order", "7/C14",
-         "Directed scenarios for every ordering named in the property x delays {0,2,20,150} ms, plus random scripts with the GUI pattern (next position+go the moment bestmove is received), 16 sessions in parallel; exactly-once bestmove, whole-line protocol tokens, readyok during search, no panic, exit 0. The evidence lists the distinct orders in which the three threads were actually observed to pass the hook points (44 in a quick run).",
+         "Directed scenarios for every ordering named in the property x delays {0,2,20,150} ms, plus random scripts with the GUI pattern (next position+go the moment bestmove is received), 16 sessions in parallel; exactly-once bestmove, no bestmove for `go infinite` before `stop` unless the search ended for a reason of its own (single reply, mate score, depth cap; stale timers of earlier timed searches are provoked on purpose), whole-line protocol tokens, readyok during search, no panic, exit 0. The evidence lists the distinct orders in which the three threads were actually observed to pass the hook points (44 in a quick run).",
          "Interleavings explored = those reachable by stretching the five named points (+ OS noise); absence of output counts only when reproduced in an isolated re-run."),
  "C15": ("exploration", "debug-assertions (unsafe-precondition) build + capacity gauges (cfg hooks abort before an unchecked push at capacity) under boundary-seeking workloads; Miri on small workloads and an AddressSanitizer build of the binary under UCI sessions in thorough", "7/C15",
          "Hill-climb to maximal mobility over reader-accepted positions, 398-ply games followed by searches to the depth cap, the real self-play loop with deterministic per-move poll budgets and on the binary, every accepted mutant FEN, over-long game records (up to 1000 plies, also followed by an illegal move), long records followed by 150-260 searches without a new position or continued by 700 copies of one odd token (`0000`, `a1a1`, ...), and 61k hostile move strings on the debug-assertions binary; high-water marks of both unchecked buffers are reported.",
